@@ -81,11 +81,16 @@ class Ctx:
         self.states.add(hashlib.sha1(repr(st).encode()).hexdigest()[:16])
         return rec
 
-    def run(self, plan, real_timeout=60.0):
+    def run(self, plan, real_timeout=60.0, hang_is_outcome=False):
         from . import runner
         if self.cover:
             plan = dict(plan, cover=True)
-        return self._account(runner.run_forked(plan, real_timeout))
+        rec = runner.run_forked(plan, real_timeout)
+        if hang_is_outcome and rec.get('outcome') == 'HARNESS-TIMEOUT':
+            # the tool kept the processor for the whole real-time allowance without making a single simulated call: a campaign
+            # that is about termination judges this as an outcome of the run instead of discarding the case
+            rec = {'status': None, 'outcome': 'REAL_TIME_EXCEEDED', 'stdout': '', 'stderr': '', 'real_timeout_s': real_timeout}
+        return self._account(rec)
 
     def run_fresh(self, plan, hashseed='0'):
         from . import runner
